@@ -2,7 +2,7 @@
    (the shared broadcasting batch rule vs. the definition of vmap), theories/Inline.v (jit / custom_jvp /
    custom_vjp / remat2 body inlining with alpha-renaming) and theories/Linear.v (linearity of the allow-listed
    primitives; the lists are translated from the current source: gen/GenAutodiff.v). *)
-From Coq Require Import ZArith String List Bool.
+From Coq Require Import ZArith QArith String List Bool.
 From J2O Require Import PyLib Tensor Lowering Batch Inline Linear.
 From J2OGen Require Import GenAutodiff.
 Import ListNotations.
@@ -169,3 +169,31 @@ Theorem C10_forwarding_allow_block_disjoint :
   forallb (fun p => negb (pair_in p ORIGINAL_RULE_FORWARDING_ALLOWLIST)) ORIGINAL_RULE_FORWARDING_BLOCKLIST = true.
 Proof. exact forwarding_allow_block_disjoint. Qed.
 Print Assumptions C10_forwarding_allow_block_disjoint.
+
+(* ------------------------------------------------------------------ hand-written differentiation rules *)
+(* rules derived from the original implementation (jax.jvp / jax.vmap of the original) are JAX's own rules *)
+Theorem C10_derived_rule_is_jax_rule : forall (F R : Type) (D : F -> R) (impl orig : F), impl = orig -> D impl = D orig.
+Proof. exact @derived_rule_is_jax_rule. Qed.
+Print Assumptions C10_derived_rule_is_jax_rule.
+
+(* every plugin with a HAND-WRITTEN jvp / transpose rule (AST inventory) has a boundary test family *)
+Theorem C10_handwritten_rules_have_boundary_tests :
+  forallb (fun m => str_in m boundary_tested_rules) (HANDWRITTEN_JVP_PLUGINS ++ HANDWRITTEN_TRANSPOSE_PLUGINS) = true.
+Proof. exact handwritten_rules_have_boundary_tests. Qed.
+Print Assumptions C10_handwritten_rules_have_boundary_tests.
+
+(* jnp.prod: the three-case tangent (no zero / exactly one zero / two or more zeros in the reduced slice) IS the product rule
+   sum_i t_i * prod_{j<>i} x_j, for every slice and tangent over the rationals *)
+Theorem C10_prod_jvp_three_correct : forall l t, (ProdJvp.prod_jvp_three l t == ProdJvp.dprod l t)%Q.
+Proof. exact ProdJvp.prod_jvp_three_correct. Qed.
+Print Assumptions C10_prod_jvp_three_correct.
+
+(* a rule that treats ">= 1 zero" like "exactly one zero" is wrong (x = [0;5;0]) and right exactly for <= 1 zero *)
+Theorem C10_prod_jvp_collapsed_refuted : exists l t, ~ (ProdJvp.prod_jvp_collapsed l t == ProdJvp.dprod l t)%Q.
+Proof. exact ProdJvp.prod_jvp_collapsed_refuted. Qed.
+Print Assumptions C10_prod_jvp_collapsed_refuted.
+
+Theorem C10_prod_jvp_collapsed_partial : forall l t, (ProdJvp.zcount l <= 1)%nat ->
+  (ProdJvp.prod_jvp_collapsed l t == ProdJvp.dprod l t)%Q.
+Proof. exact ProdJvp.prod_jvp_collapsed_partial. Qed.
+Print Assumptions C10_prod_jvp_collapsed_partial.
